@@ -1,7 +1,7 @@
 //! C12: `Voronoi::finalize`, `VoronoiCell::{face_indices, neighbour_ids}` over arbitrary face lists,
 //! including cells that were not constructed (made by the real `VoronoiCell::unconstructed`).
 //!
-//! Bounds: N = 3 cells, M = 3 faces; labels, shifts and the activity mask are symbolic.
+//! Bounds: N = 3 cells, M = 2 faces (3 faces exhaust the memory of the SAT back end: measured); labels, shifts and the activity mask are symbolic.
 //! Preconditions are the producer's invariants (each established by C03/C07 obligations):
 //! `left` is a constructed cell; an unshifted face never has right == left; at most one unshifted
 //! face per unordered pair of cells; a face with a shift has a right generator.
@@ -10,7 +10,7 @@ use meshless_voronoi::verif_hooks as vh;
 use meshless_voronoi::{ConvexCell, Dimensionality, HalfSpace, Voronoi, VoronoiCell, VoronoiFace, VoronoiIntegrator};
 
 const N: usize = 3;
-const M: usize = 3;
+const M: usize = 2;
 
 fn base_face() -> VoronoiFace {
     let planes = vec![HalfSpace::new(DVec3::X, DVec3::ZERO, None, None)];
@@ -89,7 +89,7 @@ fn listed(s: &Spec, c: usize, f: usize) -> bool {
 }
 
 #[kani::proof]
-#[kani::unwind(5)]
+#[kani::unwind(8)]
 fn finalize_connectivity() {
     let s = any_spec();
     let v = assemble(&s);
@@ -126,11 +126,12 @@ fn finalize_connectivity() {
     assert!(v.cell_face_connections().len() == off);
     kani::cover!(s.right_some[0] && !s.shifted[0] && !s.mask[s.right[0]], "a face towards an unconstructed cell");
     kani::cover!(s.shifted[1], "a periodic face");
+    kani::cover!(s.left[0] == s.left[1], "two faces of the same left cell");
     core::mem::forget(v);
 }
 
 #[kani::proof]
-#[kani::unwind(5)]
+#[kani::unwind(8)]
 fn neighbour_ids_spec() {
     let s = any_spec();
     let v = assemble(&s);
@@ -159,9 +160,6 @@ fn neighbour_ids_spec() {
         // no duplicates
         if n_exp >= 2 {
             assert!(exp[0] != exp[1]);
-        }
-        if n_exp == 3 {
-            assert!(exp[0] != exp[2] && exp[1] != exp[2]);
         }
         c += 1;
     }
